@@ -402,3 +402,48 @@ def write_evidence(pid, ev):
     os.makedirs(d, exist_ok=True)
     with open(os.path.join(d, pid + ".json"), "w") as f:
         json.dump(ev, f, indent=1, default=str)
+
+
+# ----------------------------------------------------------------------------- thorough-tier extras
+def coqchk(props_v):
+    """independent re-check of the compiled property file and everything it depends on"""
+    mod = "LV." + props_v[len("theories/"):-2].replace("/", ".")
+    rc, out, dt = sh(["coqchk", "-o", "-silent", "-Q", os.path.join(COQ, "theories"), "LV", mod], 1800, cwd=COQ)
+    axioms = []
+    m = re.search(r"\* Axioms:\s*(.*?)(?:\n\s*\n|\* |\Z)", out, re.S)
+    if m:
+        axioms = [l.strip() for l in m.group(1).splitlines() if l.strip() and l.strip() != "<none>"]
+    return dict(ok=(rc == 0), axioms=axioms, wall_s=round(dt, 1), tail=out[-1500:])
+
+
+def sexp_coq(v):
+    if isinstance(v, int):
+        return "(Num (%d)%%Z)" % v
+    return "(Lst [" + "; ".join(sexp_coq(x) for x in v) + "])"
+
+
+def vm_crosscheck(pid, run_import, run_name, cases, outputs):
+    """Evaluate the model INSIDE Coq (vm_compute) on a sample of cases and compare with the
+    outputs of the extracted binary, so that extraction + the OCaml driver are cross-checked.
+    Returns (n_checked, list_of_bad_indices, log)."""
+    pairs = [(c, parse_sx(o)) for c, o in zip(cases, outputs) if not o.startswith("!")]
+    if not pairs:
+        return 0, [], ""
+    work = os.path.join(BUILD, "vmcheck", pid)
+    shutil.rmtree(work, ignore_errors=True)
+    os.makedirs(work)
+    lines = ["From Coq Require Import List ZArith.", "From LV Require Import Base.Sexp %s." % run_import,
+             "Import ListNotations.", "Definition cases : list (sexp * sexp) := ["]
+    lines.append(";\n".join("  (%s, %s)" % (sexp_coq(c), sexp_coq(o)) for c, o in pairs))
+    lines.append("].")
+    lines.append("Definition bad := filter (fun i => negb (let '(c, o) := nth i cases (Lst [], Lst []) in "
+                 "sexp_eqb (%s c) o)) (seq 0 (length cases))." % run_name)
+    lines.append("Eval vm_compute in (map Z.of_nat bad).")
+    with open(os.path.join(work, "cases.v"), "w") as f:
+        f.write("\n".join(lines) + "\n")
+    rc, out, dt = sh(["coqc", "-noglob", "-Q", os.path.join(COQ, "theories"), "LV", "cases.v"], 1200, cwd=work)
+    if rc != 0:
+        return len(pairs), [-1], out[-2000:]
+    m = re.search(r"=\s*\[(.*?)\]", out, re.S)
+    bad = [int(x) for x in re.findall(r"-?\d+", m.group(1))] if m else [-1]
+    return len(pairs), bad, out[-500:]
